@@ -65,4 +65,45 @@ func init() {
 				{cmap, "for s := 0; s*chunkSize < set.Len(); s++ {", "for s := 0; s < chunks; s++ {"},
 				{cmap, "for r := 0; r*chunkSize < set.Len(); r++ {", "for r := 0; r < chunks; r++ {"}}},
 	)
+
+	// round 17
+	const (
+		fastq = "io/seqio/fastq/fastq.go"
+		utils = "seq/sequtils/utils.go"
+		alpha = "alphabet/alphabet.go"
+	)
+	const eofBranch = "\t\t\tif t != nil && state == quality && err == io.EOF {\n\t\t\t\terr = nil\n"
+	add("C04",
+		variant{Name: "own-error-at-end-of-input-without-a-look-at-the-pending-line", File: fastq, Find: eofBranch,
+			Replace: "\t\t\tif t != nil && state == quality && err == io.EOF {\n\t\t\t\tif len(seqBuff) != 0 {\n\t\t\t\t\treturn nil, io.ErrUnexpectedEOF\n\t\t\t\t}\n\t\t\t\terr = nil\n",
+			Rule:    "eofpending", Key: "fastq.(*Reader).Read/ReadLine/pending-line-consulted-at-end-of-input"},
+		variant{Name: "benign-end-of-input-test-reordered", File: fastq, Find: eofBranch,
+			Replace: "\t\t\tif err == io.EOF && state == quality && t != nil {\n\t\t\t\terr = nil\n"},
+	)
+	const rangeTest = "\tif start < offset || end > src.End() {\n"
+	for _, id := range []string{"C06", "C07"} {
+		add(id,
+			variant{Name: "truncate-refuses-the-end-of-the-sequence", File: utils, Find: rangeTest,
+				Replace: "\tif start < offset || end >= src.End() {\n",
+				Rule:    "rangeinclusive", Key: "sequtils.Truncate/range-test-strict"},
+			variant{Name: "benign-truncate-range-test-turned-round", File: utils, Find: rangeTest,
+				Replace: "\tif offset > start || src.End() < end {\n"},
+		)
+	}
+	const fillAndMark = "\tcopy(p.complements[:], p.pair)\n\tfor i, ok := range p.ok {\n\t\tif !ok {\n\t\t\tp.complements[i] |= unicode.MaxASCII + 1\n\t\t}\n\t}\n"
+	add("C17",
+		variant{Name: "complement-table-copied-over-its-marks", File: alpha, Find: fillAndMark,
+			Replace: "\tfor i, ok := range p.ok {\n\t\tif !ok {\n\t\t\tp.complements[i] |= unicode.MaxASCII + 1\n\t\t}\n\t}\n\tcopy(p.complements[:], p.pair)\n",
+			Rule:    "marklast", Key: "alphabet.NewPairing/table-filled-before-it-is-marked"},
+		variant{Name: "benign-complement-table-filled-and-marked-in-one-loop", File: alpha, Find: fillAndMark,
+			Replace: "\tfor i, l := range p.pair {\n\t\tif !p.ok[i] {\n\t\t\tl |= unicode.MaxASCII + 1\n\t\t}\n\t\tp.complements[i] = l\n\t}\n"},
+	)
+	const clampLine = "\t\t\t\tendChunk := util.Min(chunkSize*(s+1), set.Len())\n"
+	add("C19",
+		variant{Name: "last-chunk-not-clamped", File: cmap, Find: clampLine,
+			Replace: "\t\t\t\tendChunk := chunkSize * (s + 1)\n",
+			Rule:    "chunkclamp", Key: "concurrent.Map/chunk-end-clamped-to-the-length"},
+		variant{Name: "benign-last-chunk-clamped-by-a-test", File: cmap, Find: clampLine,
+			Replace: "\t\t\t\tendChunk := chunkSize * (s + 1)\n\t\t\t\tif endChunk > set.Len() {\n\t\t\t\t\tendChunk = set.Len()\n\t\t\t\t}\n"},
+	)
 }
